@@ -15,7 +15,12 @@ joiner secret from the Welcome sealed to their init key and their node keys by `
 
 `Reachable` (`Proofs/GroupInv.lean`): worlds reachable from a one-member group by any number of such commits —
 any committer, any proposals that `batchEdit` accepts, with and without a path, any `deliverTo` — under the
-side conditions `CommitOk` (exactly those of `Step.commit`: stamps that are meant to be new are new).
+side conditions `CommitOk` (exactly those of `Step.commit`: stamps that are meant to be new are new), AND by
+EXTERNAL commits (`GroupWorld.externalCommit`: a non-member takes the GroupInfo of any current member, optionally
+removes one leaf — re-sync —, is inserted at the leftmost blank leaf after `batch_edit`, commits an update path
+from there; the init secret of the new epoch is the KEM shared secret `Sec.ext n`; side conditions `ExtOk`).
+Every theorem below that quantifies over `Reachable w` therefore covers histories with external commits; the
+section "external commits" states agreement and progress for the external commit itself.
 
 History is linear in this model (one public tree): two parties with the same epoch number have processed the
 same commits.  Forks (two commits for the same epoch) are outside the model.
@@ -218,6 +223,155 @@ theorem joiner_gets_members_state {w w' : GroupWorld} {tr : Transcript} {sender 
     rw [hc.world]
     exact hL2b
 
+/-! ### external commits -/
+
+/-- the invariant is preserved by every external commit (the second induction step) -/
+theorem invariant_preserved_ext {w w' : GroupWorld} {tr : Transcript} {gi : Nat} {remove : Option Nat}
+    {L0 nl : Leaf} {fresh : Nat} {psk : Sec} {ctx : Nat} {deliverTo : List Nat}
+    (hi : GInv w) (hok : ExtOk w remove L0 nl fresh)
+    (h : w.externalCommit gi remove L0 nl fresh psk ctx deliverTo = .ok (w', tr)) : GInv w' :=
+  ginv_ext hi hok h
+
+/-- **Everybody the external commit is delivered to, and the external committer, end with the same new epoch
+secret**: `epoch (ext n) <commit secret> psk ctx` — the init secret is the KEM shared secret `ext n` of the
+`ExternalInit` (NOT derived from the old epoch's init secret), the commit secret the end of the joiner's
+path-secret chain (an external commit always has a path).  Every other party of the new world is an unchanged
+party of the old one. -/
+theorem external_commit_epoch_secret {w w' : GroupWorld} {tr : Transcript} {gi : Nat} {remove : Option Nat}
+    {L0 nl : Leaf} {fresh : Nat} {psk : Sec} {ctx : Nat} {deliverTo : List Nat}
+    (hr : Reachable w) (h : w.externalCommit gi remove L0 nl fresh psk ctx deliverTo = .ok (w', tr)) :
+    w'.epoch = w.epoch + 1 ∧ ∃ u,
+      ∀ m' ∈ w'.members, (m' ∈ w.members ∧ m'.epoch ≤ w.epoch) ∨
+        (m'.epoch = w.epoch + 1 ∧
+          m'.secret = .epoch (.ext w.epoch) (pathN u (.fresh w.epoch)) psk ctx) := by
+  obtain ⟨h1, _, h3⟩ := ext_cases (reachable_ginv hr) h
+  exact ⟨h1, h3⟩
+
+/-- every current member in `deliverTo` other than the removed one really is in the new epoch afterwards (same
+identity, same leaf) -/
+theorem external_commit_delivered_members_advance {w w' : GroupWorld} {tr : Transcript} {gi : Nat}
+    {remove : Option Nat} {L0 nl : Leaf} {fresh : Nat} {psk : Sec} {ctx : Nat} {deliverTo : List Nat}
+    (h : w.externalCommit gi remove L0 nl fresh psk ctx deliverTo = .ok (w', tr))
+    {m : Member} (hm : m ∈ w.members) (hcur : m.epoch = w.epoch)
+    (hd : remove ≠ some m.priv.self ∧ m.priv.self ∈ deliverTo) :
+    ∃ m' ∈ w'.members, m'.id = m.id ∧ m'.priv.self = m.priv.self ∧ m'.epoch = w'.epoch := by
+  have hp : processesExt w remove deliverTo m = true := processesExt_iff.2 ⟨hcur, hd.1, hd.2⟩
+  obtain ⟨gm, t1, self, t1x, o, ms, hc⟩ := externalCommit_inv h
+  obtain ⟨m', hm', hadv⟩ := (mapE_ok hc.members).2 m hm
+  refine ⟨m', by rw [hc.world]; exact List.mem_append_left _ hm', ?_⟩
+  rcases advExt_cases hadv with ⟨hf, _⟩ | ⟨_, _, _, _, hrv⟩
+  · rw [hp] at hf; cases hf
+  · obtain ⟨d, ps, r, k, hdd, _, _, _, _, rfl⟩ := recvPathI_ok hrv
+    obtain ⟨_, _, _, _, _, _, _, _, _, _, _, hself, _⟩ := Dec.decap_ok hdd
+    exact ⟨rfl, by rw [hself, provisionalPriv_self], by rw [hc.world, hcur]⟩
+
+/-- **Progress of an external commit.**  In a world satisfying the invariant (e.g. any reachable world), an
+external commit built from the GroupInfo of a followed current member `gi`, whose Remove (if any) applies and
+whose leaf node finds a place, succeeds and is processed by every current member it is delivered to other than
+the removed one, whatever `deliverTo` is: the joiner's `encap` is total, the receivers' uniqueness check of the
+path's leaf node passes, their tree is the joiner's, every receiver decapsulates the KEM output with the external
+key of its own epoch secret, finds its ciphertext sealed to a key it holds, and the derived keys match.
+`hok`: the side conditions `ExtOk` (new stamps are new). -/
+theorem external_commit_never_stuck {w : GroupWorld} {gi : Nat} {remove : Option Nat} {L0 nl : Leaf}
+    {fresh : Nat} {psk : Sec} {ctx : Nat} {gm : Member} {a : List Nat} {t1 t1x : Tree} {self : Nat}
+    (deliverTo : List Nat) (hi : GInv w) (hok : ExtOk w remove L0 nl fresh) (hpsk : psk.isPskInput = true)
+    (hgm : w.sender? gi = some gm) (hb : batchEdit w.tree (extEdits remove) = .ok (a, t1))
+    (hadd : addLeaf t1 L0 0 = .ok (self, t1x)) :
+    ∃ r, w.externalCommit gi remove L0 nl fresh psk ctx deliverTo = .ok r :=
+  ext_progress deliverTo hi hok hpsk hgm hb hadd
+
+/-- **The external committer ends with the members' state.**  After the external commit it is a followed party
+of the new epoch with the identity of its leaf node, sitting on the leaf `addLeaf` gave it — the leftmost blank
+leaf of the tree after the Remove —, which now carries the leaf node of its update path; it holds exactly the
+keys it is entitled to in the new tree (`KeyInv`: its leaf key and the keys of all non-blank nodes of its direct
+path — it generated them) and the same epoch secret as every other party of the new epoch. -/
+theorem external_committer_gets_members_state {w w' : GroupWorld} {tr : Transcript} {gi : Nat}
+    {remove : Option Nat} {L0 nl : Leaf} {fresh : Nat} {psk : Sec} {ctx : Nat} {deliverTo : List Nat}
+    (hr : Reachable w) (hok : ExtOk w remove L0 nl fresh)
+    (h : w.externalCommit gi remove L0 nl fresh psk ctx deliverTo = .ok (w', tr)) :
+    ∃ j ∈ w'.members, j.id = nl.ident ∧ j.epoch = w'.epoch ∧ KeyInv w'.tree j.priv ∧
+      get w'.tree (2 * j.priv.self) = some (.leaf nl) ∧
+      (∃ pk, j.priv.keys = some nl.hpke :: pk) ∧
+      (∃ a t1, batchEdit w.tree (extEdits remove) = .ok (a, t1) ∧ get t1 (2 * j.priv.self) = none ∧
+        ∀ i < j.priv.self, get t1 (2 * i) ≠ none) ∧
+      ∀ m ∈ w'.members, m.epoch = w'.epoch → m.secret = j.secret := by
+  have hi := reachable_ginv hr
+  have hi' := ginv_ext hi hok h
+  obtain ⟨gm, t1, self, t1x, o, ms, hc⟩ := externalCommit_inv h
+  have hjm : extJoiner w nl self o psk ctx ∈ w'.members := by
+    rw [hc.world]; exact List.mem_append_right _ (List.mem_singleton.2 rfl)
+  have hje : (extJoiner w nl self o psk ctx).epoch = w'.epoch := by rw [hc.world]; rfl
+  obtain ⟨_, hk⟩ := hi'.good.2 _ (current_priv_mem hjm hje)
+  have hx := ext_edit hi hok hc
+  have hself := self_lt_of_leaf ⟨L0, hx.leaf⟩
+  obtain ⟨hpu, _, hsl, _, _⟩ := encap_spec hc.enc hself
+  obtain ⟨a, hb⟩ := hc.edit
+  obtain ⟨hl1, hl2⟩ := addLeaf_leftmost hc.add (fun j hj => absurd hj (Nat.not_lt_zero j))
+  refine ⟨_, hjm, rfl, hje, hk, ?_, ⟨o.pathKeys, hsl⟩, ⟨a, t1, hb, hl1, hl2⟩,
+    fun m hm he => hi'.agree m hm _ hjm (by rw [he, hje])⟩
+  rw [hc.world]
+  exact hpu.leaf
+
+/-- **The receivers' own provisional tree.**  The model lets the receivers of an external commit work on the
+committer's provisional tree `t1x` (leaf node `L0` inserted).  Really a receiver inserts the leaf node `nl` of
+the update path (`external_leaf = update_path.leaf_node`; the model checks `conflicts t1 nl`) — this theorem
+closes the gap: `addLeaf` puts `nl` on the same leaf, `apply_update_path` on the receiver's tree gives the
+committer's new tree, and `provisional_private_tree` computes the same slots from either tree. -/
+theorem external_commit_receivers_tree {w w' : GroupWorld} {tr : Transcript} {gi : Nat} {remove : Option Nat}
+    {L0 nl : Leaf} {fresh : Nat} {psk : Sec} {ctx : Nat} {deliverTo : List Nat}
+    (h : w.externalCommit gi remove L0 nl fresh psk ctx deliverTo = .ok (w', tr)) :
+    ∃ a t1 self t1x t1r pk, batchEdit w.tree (extEdits remove) = .ok (a, t1) ∧
+      addLeaf t1 L0 0 = .ok (self, t1x) ∧ addLeaf t1 nl 0 = .ok (self, t1r) ∧
+      applyUpdatePath t1r self nl pk = .ok w'.tree ∧
+      ∀ p own, provisionalPriv t1r p own = provisionalPriv t1x p own := by
+  obtain ⟨gm, t1, self, t1x, o, ms, hc⟩ := externalCommit_inv h
+  obtain ⟨a, hb⟩ := hc.edit
+  obtain ⟨_, L, hL⟩ := applyUpdatePath_spec hc.recvTree
+  refine ⟨a, t1, self, t1x, _, o.pathKeys, hb, hc.add, addLeaf_other hc.add hc.noconf, ?_,
+    fun p own => provisionalPriv_set_leaf hL p own⟩
+  rw [applyUpdatePath_set_leaf hL, hc.recvTree, hc.world]
+
+/-- What a receiver of an external commit computes is derivable, in the sense of the adversary model of
+`C02Group`, from exactly what it holds: its (provisional) private keys, its old epoch secret — from which it
+derives the external private key and opens the KEM output —, the PSK, and the public transcript. -/
+theorem external_receiver_secret_is_derivable {t1x : Tree} {o : EncapOut} {s0 : Sec} {self n : Nat}
+    {psk : Sec} {ctx : Nat} {m m' : Member} {tr : Transcript}
+    (htr : tr.pathSeals = pathSealsOf o s0) (hext : tr.ext = some (m.secret, .ext n))
+    (h : recvPathI (.ext n) t1x o (pathSealsOf o s0) self noEdits [] psk ctx m = .ok m') :
+    Derivable (keysOf (provisionalPriv t1x m.priv none)) [m.secret, psk]
+      tr.seals tr.gens (.sec m'.secret) := by
+  obtain ⟨d, ps, r, k, _, hps, hr, hk, _, rfl⟩ := recvPathI_ok h
+  rw [ownUpdate_noEdits] at hk
+  have hkey : Key.node k ∈ keysOf (provisionalPriv t1x m.priv none) := by
+    unfold keysOf
+    rw [List.mem_filterMap]
+    exact ⟨some k, List.mem_of_getElem? hk, rfl⟩
+  have hseal : (Key.node k, ps.secret) ∈ tr.seals := by
+    unfold Transcript.seals
+    rw [List.mem_append]
+    left
+    rw [List.mem_flatMap]
+    refine ⟨ps, by rw [htr]; exact List.mem_of_getElem? hps, ?_⟩
+    rw [List.mem_filterMap]
+    exact ⟨(r, some k), List.mem_of_getElem? hr, rfl⟩
+  have hxs : (Key.ext m.secret, Sec.ext n) ∈ tr.seals := by
+    unfold Transcript.seals
+    rw [hext]
+    simp
+  have hxg : (m.secret, Key.ext m.secret) ∈ tr.gens := by
+    unfold Transcript.gens
+    rw [hext]
+    simp
+  have hopen : Derivable (keysOf (provisionalPriv t1x m.priv none)) [m.secret, psk]
+      tr.seals tr.gens (.sec ps.secret) := .opens hseal (.key0 hkey)
+  have hN : ∀ i, Derivable (keysOf (provisionalPriv t1x m.priv none)) [m.secret, psk]
+      tr.seals tr.gens (.sec (pathN i ps.secret)) := by
+    intro i
+    induction i with
+    | zero => exact hopen
+    | succ i ih => exact .path ih
+  exact .epoch (.opens hxs (.gen hxg (.sec0 (by simp)))) (hN _) (.sec0 (by simp))
+
 /-! ### the adversary rules are not too weak: an honest receiver's computation is a derivation -/
 
 /-- What a receiver computes is derivable, in the sense of the adversary model of `C02Group`, from exactly what
@@ -281,5 +435,48 @@ example : ∀ m1 ∈ w5.members, ∀ m2 ∈ w5.members, m1.epoch = m2.epoch → 
 -- member 2 receives the removal commit: it decrypts at the root with the key of node 5 (stamp 2000)
 example : (tr4.pathSeals.map fun ps => (ps.node, ps.key, ps.recips)) = [(3, 3000, [(5, some 2000)])] ∧
     m2.priv.keys = [some 302, some 2000, some 2001] := by decide +kernel
+
+/-! ### Non-vacuity: external commits (`Proofs/GroupExample.lean`) -/
+
+-- … party 4 joins by an external commit from member 0's GroupInfo (epoch 5 → 6), then member 2, which has lost
+-- its state, re-syncs by an external commit that removes its own old leaf (epoch 6 → 7).  All side conditions
+-- hold, both steps succeed:
+example : Reachable wx7 := .ext (.ext reach5 okx6 cx6) okx7 cx7
+
+-- who is where afterwards: members 0, 4 and the re-synced member 2 are in epoch 7; the OLD state of member 2 (same
+-- identity) stays in epoch 6; the removed member 1 and the lagging member 3 as before
+example : wx7.members.map (fun m => (m.id, m.epoch)) = [(0, 7), (1, 3), (2, 6), (3, 2), (4, 7), (2, 7)] := by
+  decide +kernel
+
+-- the new epoch secrets, spelled out: the init secret is the KEM shared secret `ext n`, not `initOf` of the old
+-- epoch secret; the commit secret is the end of the joiner's chain (two unfiltered nodes each time)
+example : E wx6 = .epoch (.ext 5) (.path (.path (.fresh 5))) .zero 17 ∧
+    E wx7 = .epoch (.ext 6) (.path (.path (.fresh 6))) .zero 18 := by decide +kernel
+
+-- the joiner and the members agree: party 4 and member 0 in epochs 6 and 7, the re-synced member 2 in epoch 7
+example : j4.secret = E wx6 ∧ (party wx6 2).map (·.secret) = some (E wx6) ∧
+    (party wx7 4).map (·.secret) = some (E wx7) ∧ m2y.secret = E wx7 ∧ m2y.epoch = 7 := by decide +kernel
+
+-- the general theorem applied to the example: everybody at the same epoch agrees
+example : ∀ m1 ∈ wx7.members, ∀ m2 ∈ wx7.members, m1.epoch = m2.epoch → m1.secret = m2.secret :=
+  fun m1 h1 m2 h2 he => (agreement reachx7 m1 h1 m2 h2 he).1
+
+-- the tree edit: party 4 takes the leftmost blank leaf (leaf 1, left by the removed member 1) and holds the keys of
+-- its whole direct path; the re-synced member 2 gets leaf 2 again (blanked by its own Remove) with new keys, while
+-- its old state keeps the old ones
+example : j4.priv = ⟨1, [some 714, some 7000, some 7001]⟩ ∧
+    m2y.priv = ⟨2, [some 812, some 8000, some 8001]⟩ ∧
+    m2x.priv = ⟨2, [some 502, some 4000, some 7001, none]⟩ := by decide +kernel
+
+-- the transcript of the first external commit: the KEM output towards the external key of epoch 5, no Welcome,
+-- two update-path nodes (member 0 opens the first with its leaf key, member 2 the second with the key of node 5)
+example : trx6.ext = some (E w5, .ext 5) ∧ trx6.welcome = [] ∧
+    (trx6.pathSeals.map fun ps => (ps.node, ps.key, ps.recips)) =
+      [(1, 7000, [(0, some 400)]), (3, 7001, [(5, some 4000)])] := by decide +kernel
+
+-- the theorem about the joiner's state on the example
+example : ∃ j ∈ wx6.members, j.id = 4 ∧ j.epoch = wx6.epoch ∧ KeyInv wx6.tree j.priv := by
+  obtain ⟨j, h1, h2, h3, h4, _⟩ := external_committer_gets_members_state reach5 okx6 cx6
+  exact ⟨j, h1, h2, h3, h4⟩
 
 end MlsVerif.Props.C01Group
